@@ -91,7 +91,7 @@ func wrapAfterMode(text, pre, post string) string {
 // ---------------------------------------------------------------------------
 // exhaustive sub-spaces
 
-var escRunes = []rune{'a', 'Z', '_', '5', ' ', '/', '"', '\\', '\b', '\f', '\n', '\r', '\t', '\v', 0x01, 0x1b, 0x7f, 0x80, 0xa0, 0xe9, 0xff, 0x100, 0x3bb, 0x2028, 0xfeff, 0xfffd, 0xffff, 0x10000, 0x1d11e, 0x1f600, 0xe0001, 0x10ffff}
+var escRunes = []rune{0x7e, 0x7ff, 0x800, 0xd7ff, 0xe000, 0xe001, 0xfdd0, 0xfffe, 0x1ffff, 0xfffff, 0x100000, 'a', 'Z', '_', '5', ' ', '/', '"', '\\', '\b', '\f', '\n', '\r', '\t', '\v', 0x01, 0x1b, 0x7f, 0x80, 0xa0, 0xe9, 0xff, 0x100, 0x3bb, 0x2028, 0xfeff, 0xfffd, 0xffff, 0x10000, 0x1d11e, 0x1f600, 0xe0001, 0x10ffff}
 
 // escapeForms lists every documented escape spelling of r.
 func escapeForms(r rune, ident bool) []string {
@@ -257,6 +257,21 @@ func numberCases() []SpellCase {
 	}
 	for _, l := range intForms {
 		add(l, true)
+	}
+	// systematic decimal forms: integer part x fraction x exponent
+	for _, ip := range []string{"0", "7", "10", "1_0", ""} {
+		for _, fp := range []string{"", ".", ".5", ".05", ".5_0", ".0"} {
+			for _, ex := range []string{"", "e8", "E+9", "e-9", "e08", "e1_0", "E0", "e-08"} {
+				lit := ip + fp + ex
+				if ip == "" && (fp == "" || fp == ".") {
+					continue
+				}
+				if fp == "" && ex == "" {
+					continue // plain integers are covered above
+				}
+				add(lit, false)
+			}
+		}
 	}
 	for _, l := range numForms {
 		add(l, false)
